@@ -12,5 +12,22 @@ def stepC14 : Step
     match n.toNat? with
     | some k => let (bs, len) := encVarintImp k; some (s!"{Hex.encode bs} {len}", s!"{Hex.encode (Spec.leb128 k)} {Spec.leb128Len k}")
     | none => none
+  | ["varint_decx", h] =>
+    let b := Hex.decode h
+    let m := match varintE b with
+      | .ok (n, r) => s!"ok {n} {b.length - r.length}"
+      | .error (.eof, k) => s!"err:eof {k}"
+      | .error (.zero, k) => s!"err:zero {k}"
+      | .error (.overflow, k) => s!"err:overflow {k}"
+    let s := match Spec.classify b with
+      | .ok n k => s!"ok {n} {k}"
+      | .truncated k => s!"err:eof {k}"
+      | .nonminimal k => s!"err:zero {k}"
+      | .toobig k => s!"err:overflow {k}"
+    some (m, s)
+  | ["varint_des", h] =>
+    let b := Hex.decode h
+    let sh : Option Nat → String := fun | some n => s!"ok {n}" | none => "err"
+    some (sh (varintExact b), sh (Spec.acceptExact b))
   | _ => none
 end Drv
